@@ -57,6 +57,15 @@ def source_reg(ctx):
     vlib.proof_phase_extra(ctx, 'Properties_reg_source')
 
 
+# properties that rest on which cell build_dispatch_table writes for a tuple of groups and on the counters it increments:
+# translators/tablebuild.py -> Gen/GenTab.v -> Properties_tab_source
+SOURCE_TAB = ('C01', 'C02', 'C17')
+
+
+def source_tab(ctx):
+    vlib.proof_phase_extra(ctx, 'Properties_tab_source')
+
+
 def main(pid, assumptions, level='proof', explanation=None):
     ctx = vlib.Ctx(pid)
     if ctx.replay:
@@ -71,6 +80,8 @@ def main(pid, assumptions, level='proof', explanation=None):
         source_pub(ctx)
     if pid in SOURCE_REG:
         source_reg(ctx)
+    if pid in SOURCE_TAB:
+        source_tab(ctx)
     res = coresuite.dispatch_suite(ctx.tier, ctx.seed)
     cov = coresuite.summarize(ctx, res, pid)
     if pid == 'C03':
